@@ -279,8 +279,13 @@ impl TransactionMetadata {
         self.read_set.insert(id);
     }
 
-    pub fn add_to_write_set(&mut self, id: LogicalId, version: u8) {
-        self.write_set.insert(id, version);
+    /// Returns whether the entry is new to the write set.
+    pub fn add_to_write_set(&mut self, id: LogicalId, version: u8) -> bool {
+        self.write_set.insert(id, version).is_none()
+    }
+
+    pub fn remove_from_write_set(&mut self, id: &LogicalId) {
+        self.write_set.remove(id);
     }
 
     pub fn write_set(&self) -> &HashMap<LogicalId, u8> {
@@ -535,13 +540,13 @@ impl TransactionCoordinator {
             .is_some_and(|entry| entry.write_set().get(&id) == Some(&Self::KEY_ENTRY))
     }
 
-    /// Record a write operation for a transaction
+    /// Record a write operation for a transaction; returns whether the entry is new to its write set
     pub fn record_write(
         &self,
         txid: TransactionId,
         logical_id: LogicalId,
         version: u8,
-    ) -> TransactionResult<()> {
+    ) -> TransactionResult<bool> {
         let mut txs = self.transactions.write();
 
         let entry = txs.get_mut(&txid).ok_or(TransactionError::NotFound(txid))?;
@@ -553,8 +558,17 @@ impl TransactionCoordinator {
             )));
         }
 
-        entry.add_to_write_set(logical_id, version);
-        Ok(())
+        Ok(entry.add_to_write_set(logical_id, version))
+    }
+
+    /// Takes entries out of a transaction's write set again: a statement that failed has been undone,
+    /// what only it wrote is no longer written by the transaction.
+    pub fn forget_writes(&self, txid: TransactionId, ids: &[LogicalId]) {
+        if let Some(entry) = self.transactions.write().get_mut(&txid) {
+            for id in ids {
+                entry.remove_from_write_set(id);
+            }
+        }
     }
 
     fn set_transaction_state(
